@@ -63,7 +63,14 @@ def load_known_findings(prop_id):
 
 
 def signature_matches(rec_sig, sig):
-    return all(sig.get(k) == v for k, v in rec_sig.items())
+    """Exact match on every key of the record; a key 'x__in' lists the specific inputs the finding is limited to."""
+    for k, v in rec_sig.items():
+        if k.endswith("__in"):
+            if sig.get(k[:-4]) not in v:
+                return False
+        elif sig.get(k) != v:
+            return False
+    return True
 
 
 class Ctx:
